@@ -200,6 +200,9 @@ func mainImpl(all []*Scenario) {
 			fmt.Printf("  DIVERGENCE %s\n", d)
 		}
 	}
+	if EngineRetries > 0 {
+		fmt.Printf("ENGINE-NOTE: %d execution(s) were run again after an assertion of the run time failed (never a verdict)\n", EngineRetries)
+	}
 	for _, ds := range rep.Direct {
 		fmt.Printf("scenario=%s direct evaluations=%d classes=%d exhaustive=%v violations=%d wall=%.1fs\n", ds.Scenario, ds.Evaluations, len(ds.Distinct), ds.Exhaustive, len(ds.Violations), ds.WallS)
 		for _, v := range ds.Violations {
